@@ -29,9 +29,22 @@ pub(crate) struct Instant {
 }
 
 impl Instant {
+    #[cfg(not(btdht_verif))]
     pub fn now() -> Self {
         Self {
             std_instant: StdInstant::now().checked_add(OFFSET).unwrap(),
+        }
+    }
+
+    // Verification hook: follow tokio's (pausable) clock so that simulated time drives node
+    // ageing, token rotation and peer expiry. Compiled only with `--cfg btdht_verif`.
+    #[cfg(btdht_verif)]
+    pub fn now() -> Self {
+        Self {
+            std_instant: tokio::time::Instant::now()
+                .into_std()
+                .checked_add(OFFSET)
+                .unwrap(),
         }
     }
 
